@@ -322,7 +322,15 @@ nor a date/time corresponding to the given input formats", inp);
 	} else {
 		/* otherwise traverse the zones and determine transitions */
 		for (size_t i = 0U; i < nd; i++) {
-			struct dt_dt_s di = dt_dtconv(DT_SEXY, d[i]);
+			struct dt_dt_s di = d[i];
+
+			if (dt_sandwich_only_t_p(di)) {
+				/* a time of day has its transitions on some
+				 * day, the documented one is --base's (today) */
+				di.d = dt_dconv(DT_YMD, dt_get_base().d);
+				dt_make_sandwich(&di, DT_YMD, DT_HMS);
+			}
+			di = dt_dtconv(DT_SEXY, di);
 
 			for (size_t j = 0U; j < nz; j++) {
 				const zif_t zj = z[j].zone;
